@@ -174,6 +174,10 @@ def build(pl, r):
     lines += ['zmainv& = 41777', ': '.join(f'zfill{i} = {i}' for i in range(1, 13))] + inits
     handler = []
     hhead = ['zh: zhits% = zhits% + 1', 'PRINT 42001&; ERR; zmainv&; zhits%']
+    if r.random() < 0.5:
+        # ordinary statements inside the handler: a SUB call, a FUNCTION call, GOSUB/RETURN
+        hhead += r.sample(['zhnote', 'zhv% = zid%(4)', 'zgt& = 44002: GOSUB zgs'], r.randint(1, 3))
+        pl['handler_calls'] = True
     if pl['mode'] in ('goto-resume', 'goto-resume-next', 'goto-then-goto0', 'goto-end'):
         lines.append('ON ERROR GOTO zh')
         if pl['mode'] == 'goto-resume':
@@ -184,7 +188,7 @@ def build(pl, r):
             handler = hhead + ['RESUME NEXT']
     else:
         lines.append('ON ERROR RESUME NEXT')
-    procs = ['SUB zshow (t&)', 'PRINT t&', 'END SUB', 'SUB zshow2 (t&, v)', 'PRINT t&; v', 'END SUB',
+    procs = ['SUB zhnote', 'zhn% = zhn% + 1', 'END SUB', 'SUB zshow (t&)', 'PRINT t&', 'END SUB', 'SUB zshow2 (t&, v)', 'PRINT t&; v', 'END SUB',
              'FUNCTION zid% (x)', 'zid% = x', 'END FUNCTION']
     gs = ['zgs: PRINT zgt&', 'RETURN']
     if place == 'main':
@@ -258,6 +262,9 @@ def run_case(case):
             if not (isinstance(it, list) and it[0] == 'v' and it[1] == '&'):
                 continue
             t = it[2]
+            if t == 44002:
+                st['handler_gosubs'] = st.get('handler_gosubs', 0) + 1      # printed by a GOSUB inside the handler
+                continue
             if t == 42001:
                 errv = e[1][2][2] if len(e[1]) > 2 and isinstance(e[1][2], list) else None
                 got.append(('handler', errv))
